@@ -164,7 +164,6 @@ package node
 //@   modifies lastConsumers()
 //@   ensures lastConsumers() == result
 
-//@ iface lib.QueueMPSC.Push
 //@ iface gen.Connection.SendEvent
 //@ func (n *network) Connection
 //@   trusted
@@ -206,3 +205,78 @@ package node
 //@   requires [wf] cronJobsWF(c)
 //@   ensures [unknown] !old(has(c.jobs, name)) ==> result == gen.ErrUnknown
 //@   ensures [disabled] old(has(c.jobs, name)) ==> result == nil && has(c.jobs, name) && c.jobs[name].disable
+
+// ---------------------------------------------------------------------------------------------
+// C02 / C03: local delivery. pushed(q) counts the successful Push calls on mailbox queue q,
+// woken(p) the calls of p.run() (ghost counters). "Truthful result": nil means exactly one message
+// was placed in the queue selected by the priority and the process was woken afterwards; an error
+// means nothing was placed anywhere.
+
+//@ ghostheap pushed(q lib.QueueMPSC) int
+//@ ghostheap woken(p *process) int
+
+//@ iface lib.QueueMPSC.Push
+//@   modifies pushed(self)
+//@   ensures pushed(self) == old(pushed(self)) + (result ? 1 : 0)
+
+//@ func (p *process) run
+//@   trusted
+//@   modifies woken(p)
+//@   ensures woken(p) == old(woken(p)) + 1
+
+//@ func (p *process) isAlive
+//@   inline
+
+//@ func gen.TakeMailboxMessage
+//@   trusted
+//@   ensures result != nil && fresh(result)
+
+//@ func (n *network) GetConnection
+//@   trusted
+//@ iface gen.Connection.SendPID
+
+//@ spec func processesWF(n *node) bool = forall k any :: smHas(n.processes, k) ==> typeis(smVal(n.processes, k), *process) && smVal(n.processes, k).(*process) != nil
+//@ spec func procOf(n *node, pid gen.PID) *process = smVal(n.processes, any(pid)).(*process)
+//@ spec func prioQueue(p *process, prio gen.MessagePriority) lib.QueueMPSC = (prio == gen.MessagePriorityHigh ? p.mailbox.System : (prio == gen.MessagePriorityMax ? p.mailbox.Urgent : p.mailbox.Main))
+//@ spec func mailboxWF(p *process) bool = p.mailbox.Main != nil && p.mailbox.System != nil && p.mailbox.Urgent != nil && p.mailbox.Main != p.mailbox.System && p.mailbox.Main != p.mailbox.Urgent && p.mailbox.System != p.mailbox.Urgent
+
+//@ spec func namesWF(n *node) bool = forall k any :: smHas(n.names, k) ==> typeis(smVal(n.names, k), *process) && smVal(n.names, k).(*process) != nil && mailboxWF(smVal(n.names, k).(*process))
+//@ spec func procByName(n *node, name gen.Atom) *process = smVal(n.names, any(name)).(*process)
+//@ spec func nothingDelivered() bool = (forall q lib.QueueMPSC :: pushed(q) == old(pushed(q))) && (forall x *process :: woken(x) == old(woken(x)))
+
+// the fallback path of the by-id routes re-enters here
+//@ func (n *node) RouteSendProcessID
+//@   props C02 C03
+//@   modifies pushed, woken
+//@   requires [tables] namesWF(n)
+//@   ensures [accepted_one_push_then_wake] result == nil && (to.Node == n.name || to.Node == "") && n.creation > 0 ==> smHas(n.names, any(to.Name)) && (pushed(prioQueue(procByName(n, to.Name), options.Priority)) == old(pushed(prioQueue(procByName(n, to.Name), options.Priority))) + 1 && woken(procByName(n, to.Name)) == old(woken(procByName(n, to.Name))) + 1 || procByName(n, to.Name).fallback.Enable)
+//@   ensures [refused_nothing_pushed] result != nil && (to.Node == n.name || to.Node == "") ==> (forall q lib.QueueMPSC :: pushed(q) == old(pushed(q))) && (forall x *process :: woken(x) == old(woken(x)))
+//@   ensures [unknown_name] n.creation > 0 && (to.Node == n.name || to.Node == "") && !smHas(n.names, any(to.Name)) ==> result == gen.ErrProcessUnknown
+
+//@ func (n *node) RouteSendPID
+//@   props C02 C03
+//@   requires [tables] processesWF(n) && namesWF(n) && (forall k any :: smHas(n.processes, k) ==> mailboxWF(smVal(n.processes, k).(*process)))
+//@   ensures [accepted_one_push_then_wake] result == nil && to.Node == n.name && n.creation > 0 ==> smHas(n.processes, any(to)) && (pushed(prioQueue(procOf(n, to), options.Priority)) == old(pushed(prioQueue(procOf(n, to), options.Priority))) + 1 && woken(procOf(n, to)) == old(woken(procOf(n, to))) + 1 || procOf(n, to).fallback.Enable)
+//@   ensures [accepted_only_that_queue] result == nil && to.Node == n.name && !procOf(n, to).fallback.Enable ==> forall q lib.QueueMPSC :: q != prioQueue(procOf(n, to), options.Priority) ==> pushed(q) == old(pushed(q))
+//@   ensures [refused_nothing_pushed] result != nil && to.Node == n.name ==> (forall q lib.QueueMPSC :: pushed(q) == old(pushed(q))) && (forall x *process :: woken(x) == old(woken(x)))
+//@   ensures [unknown_process] n.creation > 0 && to.Node == n.name && !smHas(n.processes, any(to)) ==> result == gen.ErrProcessUnknown
+//@   ensures [node_stopped] n.creation <= 0 ==> result == gen.ErrNodeTerminated
+
+//@ iface gen.Connection.SendProcessID
+//@ iface gen.Connection.CallPID
+//@ iface gen.Connection.CallProcessID
+
+// requests: no fallback; same truthfulness and queue selection
+//@ func (n *node) RouteCallPID
+//@   props C02 C03 C07
+//@   requires [tables] processesWF(n) && (forall k any :: smHas(n.processes, k) ==> mailboxWF(smVal(n.processes, k).(*process)))
+//@   ensures [accepted_one_push_then_wake] result == nil && to.Node == n.name ==> smHas(n.processes, any(to)) && pushed(prioQueue(procOf(n, to), options.Priority)) == old(pushed(prioQueue(procOf(n, to), options.Priority))) + 1 && woken(procOf(n, to)) == old(woken(procOf(n, to))) + 1
+//@   ensures [accepted_only_that_queue] result == nil && to.Node == n.name ==> forall q lib.QueueMPSC :: q != prioQueue(procOf(n, to), options.Priority) ==> pushed(q) == old(pushed(q))
+//@   ensures [refused_nothing_pushed] result != nil && to.Node == n.name ==> (forall q lib.QueueMPSC :: pushed(q) == old(pushed(q))) && (forall x *process :: woken(x) == old(woken(x)))
+//@   ensures [no_self_call] n.creation > 0 && from == to ==> result == gen.ErrNotAllowed
+
+//@ func (n *node) RouteCallProcessID
+//@   props C02 C03 C07
+//@   requires [tables] namesWF(n)
+//@   ensures [accepted_one_push_then_wake] result == nil && to.Node == n.name ==> smHas(n.names, any(to.Name)) && pushed(prioQueue(procByName(n, to.Name), options.Priority)) == old(pushed(prioQueue(procByName(n, to.Name), options.Priority))) + 1 && woken(procByName(n, to.Name)) == old(woken(procByName(n, to.Name))) + 1
+//@   ensures [refused_nothing_pushed] result != nil && to.Node == n.name ==> (forall q lib.QueueMPSC :: pushed(q) == old(pushed(q))) && (forall x *process :: woken(x) == old(woken(x)))
